@@ -1,11 +1,12 @@
 """Lemmas: formulas over contracts / spec functions only (no code); each statement is one obligation."""
 from __future__ import annotations
 
-import z3
+try:
+    import z3
+except Exception:  # concrete-only interpreter
+    z3 = None
 
 from . import values as V
-from .engine import Obligation
-from .solve import discharge, smt2_head
 from .values import SBool
 
 
@@ -67,6 +68,9 @@ class LemmaCtx:
 
 
 def prove_lemmas(lemmas, timeout_ms, cross):
+    from .engine import Obligation
+    from .solve import discharge, smt2_head
+
     out = []
     for lm in lemmas:
         for label, build in lm.statements():
@@ -89,3 +93,61 @@ def prove_lemmas(lemmas, timeout_ms, cross):
             out.append(d)
     V.ENGINE = None
     return out
+
+
+class Snap:
+    """hand-made state snapshot for lemma statements: {handle: {'data':..,'pos':..,'out':..}}"""
+
+    def __init__(self, states, ctx=None):
+        self.states = states
+        self._old = None
+        self.ctx = ctx
+        self.eng = ctx
+
+    def data(self, f):
+        return self.states[f]["data"]
+
+    def pos(self, f):
+        return self.states[f]["pos"]
+
+    def out(self, f):
+        return self.states[f]["out"]
+
+    def view(self, x):
+        return x
+
+    def deref(self, x):
+        return x
+
+    def items(self, x):
+        return x
+
+    def f(self, o, name):
+        return self.states[o][name]
+
+    def inst(self, k):
+        pass
+
+    @property
+    def old(self):
+        return self._old
+
+    def with_old(self, old):
+        s = Snap(self.states, self.ctx)
+        s._old = old
+        return s
+
+
+def assume_ensures(c, ct, old, new, result, **bound):
+    """assume every postcondition clause of contract `ct` (ForAll clauses are returned for manual instantiation)"""
+    from .contract import ForAll
+
+    foralls = []
+    new = new.with_old(old)
+    for item in ct.ensures(new, old, result, **bound):
+        f = item[1]
+        if isinstance(f, ForAll):
+            foralls.append(f)
+        else:
+            c.assume(f)
+    return foralls
